@@ -13,7 +13,7 @@ satisfying the bookkeeping predicate `GaugeH.wf`.
 set_option linter.unusedSectionVars false
 set_option linter.unusedVariables false
 
-namespace Ptn.Ham
+namespace Ptn.Ham.Gauge
 open Ptn.Og List
 
 theorem tableAt_nil (n : MolNodes) (a : Nat) (ha : 10 ≤ a) : tableAt n a = [] := by
@@ -357,4 +357,4 @@ theorem gaugeTransform_err (hc : ConjLaws α) (ns : Nat) (bd : List Nat) (nm : L
     cases he; rfl
 
 end main
-end Ptn.Ham
+end Ptn.Ham.Gauge
